@@ -1101,7 +1101,16 @@ fn run_world(t: &mut Tape, c: &mut Case, strict: bool, known: &HashSet<String>) 
                 sample.push(format!("{spec} => {git:?}"));
             }
             if !agree(&git, &gix) {
-                let sig = if matches!(git, Outcome::Fail(_)) && shorthand_on_non_commit(&gix, &built.parents) {
+                let sig = if matches!(git, Outcome::Fail(_))
+                    && matches!(gix, Outcome::Lines(_))
+                    && f.list.contains(&"hex-ambiguous")
+                    && f.single
+                    && (spec.contains("^{blob}") || spec.contains("^{tag}"))
+                {
+                    // git uses `^{commit}`/`^{tree}` (and ~n, ^n, :path) as disambiguation hints for an ambiguous
+                    // prefix, but not `^{blob}`/`^{tag}`: `d3a5^{blob}` with a tree and a blob candidate stays ambiguous
+                    "ambiguous-prefix-disambiguated-by-blob-or-tag-peel".to_string()
+                } else if matches!(git, Outcome::Fail(_)) && shorthand_on_non_commit(&gix, &built.parents) {
                     "range-shorthand-accepts-non-commit".to_string()
                 } else {
                     signature(&git, &gix, f, &built.tag_ids)
@@ -1155,7 +1164,7 @@ pub fn main() {
 
     let known = load_known();
 
-    ck.sub("world", SubCfg::new(120, 3_000).max_len(2400).max_shrink(8), |t, c| run_world(t, c, false, &known));
+    ck.sub("world", SubCfg::new(48, 1_500).max_len(2400).max_shrink(8), |t, c| run_world(t, c, false, &known));
     // replays of the pinned known findings (and one more random world) with known classes reported
     ck.sub("pinned", SubCfg::new(1, 4).max_len(2400).max_shrink(4), |t, c| run_world(t, c, true, &known));
 
